@@ -154,6 +154,9 @@ func c02Box(c *vf.Check) {
 	// the same programs with a struct VALUE element type: the yielded operand is a composite literal
 	runFam(c, famSpec{id: "C02", fam: "box", name: "F_boxv", sizeQ: "3", sizeT: "4", tapeQ: "2", tapeT: "3", callsQ: 5, callsT: 6,
 		keys: fullKeys, opts: srcOpts{Box: true, BoxVal: true}, rule: ""})
+	// ... and with a map element type: the yielded operand is a map literal whose KEY is the computed expression
+	runFam(c, famSpec{id: "C02", fam: "box", name: "F_boxm", sizeQ: "3", sizeT: "4", tapeQ: "2", tapeT: "3", callsQ: 5, callsT: 6,
+		keys: fullKeys, opts: srcOpts{Box: true, BoxMap: true}, rule: ""})
 }
 
 // C03: local state and lexical scoping survive suspension.
